@@ -1,5 +1,6 @@
 (* C18 — torsion angles: what both implementations hand to atan2 (theorems over the reals). *)
-From Coq Require Import Reals.
+From Coq Require Import Reals String ZArith List.
+Import ListNotations.
 From RV Require Import Gen.Torsion Model.Geom Proofs.TorsionR.
 Open Scope R_scope.
 
@@ -7,6 +8,20 @@ Open Scope R_scope.
 Lemma C18_pin_shapes : torsion_v1_as_modelled = true /\ torsion_v2_as_modelled = true.
 Proof. split; reflexivity. Qed.
 Print Assumptions C18_pin_shapes.
+
+(* pin: the backbone torsions tabulated by the table-level reader are the IUPAC ones (atom, residue offset), and the
+   glycosidic torsion of the residue-level reader uses O4'-C1'-N9-C4 / O4'-C1'-N1-C2 *)
+Lemma C18_pin_torsion_tables :
+  v2_torsion_table =
+    [("alpha",   [("O3'", -1); ("P", 0);   ("O5'", 0); ("C5'", 0)]);
+     ("beta",    [("P", 0);    ("O5'", 0); ("C5'", 0); ("C4'", 0)]);
+     ("gamma",   [("O5'", 0);  ("C5'", 0); ("C4'", 0); ("C3'", 0)]);
+     ("delta",   [("C5'", 0);  ("C4'", 0); ("C3'", 0); ("O3'", 0)]);
+     ("epsilon", [("C4'", 0);  ("C3'", 0); ("O3'", 0); ("P", 1)]);
+     ("zeta",    [("C3'", 0);  ("O3'", 0); ("P", 1);   ("O5'", 1)])]%string%Z%list /\
+  chi_purine_atoms = ["O4'"; "C1'"; "N9"; "C4"]%string%list /\ chi_pyrimidine_atoms = ["O4'"; "C1'"; "N1"; "C2"]%string%list.
+Proof. repeat split; reflexivity. Qed.
+Print Assumptions C18_pin_torsion_tables.
 
 (* For points built with bond lengths l1 l2 l3, bond angles (sines s1 s3) and dihedral phi (sf = sin phi,
    cf = cos phi), tertiary.py hands atan2 the pair (|v2| * y, x) = (K sin phi, K cos phi) with
